@@ -549,10 +549,12 @@ static void worker_main(int rfd, int wfd)
         if (h == "-") h.clear();
         Out o;
         std::string r;
+        clock_t c0 = clock();
         try { r = run_job(h, o); } catch (const std::exception& e) { o.lines.push_back("V\tharness-exception\t" + esc(std::string("exception during replay: ") + e.what() + " history [" + h + "]") + "\thistory " + h); r = "EXC\t"; }
         for (auto& l : o.lines) fprintf(outf, "%s\n", l.c_str());
         fprintf(outf, "R\t%s\t%lu\t%lu\t%lu\t%lu\t%lu\t%lu\t%lu\t%lu\t%lu\t%d\n", r.c_str(), (unsigned long)o.evals, (unsigned long)o.tx_found, (unsigned long)o.spenders, (unsigned long)o.filters, (unsigned long)o.stats,
                 (unsigned long)o.neg_spender, (unsigned long)o.stale_tx, (unsigned long)o.behind_seen, (unsigned long)o.ahead_seen, o.full_check ? 1 : 0);
+        (void)c0;
         fflush(outf);
     }
     fflush(outf);
@@ -640,8 +642,12 @@ int main(int argc, char** argv)
         std::ifstream f(vx::ctx().replay);
         std::string l, h;
         while (std::getline(f, l)) if (l.rfind("history ", 0) == 0) h = l.substr(8);
+        const std::string mytmp = vx::scratch_dir() + "/c21-" + std::to_string(getpid());
+        mkdir(mytmp.c_str(), 0755);
+        setenv("TMPDIR", mytmp.c_str(), 1);
         Out o;
         std::string r = run_job(h, o);
+        { std::error_code ec; std::filesystem::remove_all(mytmp, ec); }
         printf("replay history [%s]\nkey %s\n", h.c_str(), r.c_str());
         for (auto& x : o.lines) if (x[0] == 'V') printf("%s\n", x.c_str());
         return 0;
